@@ -117,7 +117,7 @@ package ipk
 //@         renderedRange(".Info.IPK.Fields") + "\n"
 //@ }
 //
-//@ func renderControl(w io.Writer, data controlData) (err error)
+//@ inline func renderControl(w io.Writer, data controlData) (err error)
 //@   requires data.Info != nil
 //@   ensures [C02 C14 C15] control-fields: implies(err == nil, ghostStr(w, "out") == old(ghostStr(w, "out")) + ipkControl(data.Info, data.InstalledSize))
 //
